@@ -29,6 +29,17 @@ structure Val (V : Type) where
   fields : List V
   deriving Repr, DecidableEq
 
+/-- `TypeName` of debug/models/type_attribute.rs. -/
+inductive NameCfg | disable | default | custom (n : Ident)
+  deriving Repr, Inhabited, DecidableEq
+
+def NameCfg.toIdent (c : NameCfg) (own : Ident) : Option Ident :=
+  match c with
+  | .disable => none
+  | .default => some own
+  | .custom n => some n
+
+
 /-! ### Decimal rendering (what `format_ident!("_{}", index)` does to the index) -/
 
 def digitChar (n : Nat) : Char :=
